@@ -207,6 +207,9 @@ def check(ctx):
         paths[k] = st.get(k, 0)
         if not paths[k]:
             raise c.ToolError("vacuity: no case of kind %s" % k)
+    paths["stream_filter_lists_from_dlt_convert_list"] = st.get("stream_filters_from_convert_list", 0)
+    if not paths["stream_filter_lists_from_dlt_convert_list"]:
+        raise c.ToolError("vacuity: no filter set loaded from a dlt-convert list")
     paths["export_msgs_processed"] = st.get("export_msgs", 0)
     paths["export_msgs_exported"] = st.get("export_exported", 0)
     paths["paced_producer_runs_inert_only_sets"] = st.get("paced_runs_inert_only_sets", 0)
